@@ -306,7 +306,8 @@ class Session20(object):
                               dict(case, changed=[[n, repr(b), repr(a)] for n, b, a in changed]))
         # ---- error / value oracle --------------------------------------------------------------------
         alt_errors = (7, 14) if self.tight else ()
-        if raised and got[1] in alt_errors and not (exp[0] == 'error' and exp[1] == 7):
+        # under tight memory, running out of string space while the arguments are built may come first
+        if raised and got[1] in alt_errors and not (exp[0] == 'error' and exp[1] == 7 and got[1] == 7):
             res.count('tight_memory_errors')
             return
         if exp[0] == 'error':
@@ -396,6 +397,13 @@ class Session20(object):
                     res.violation('value:function-result', '%s returned %r, reference value %r' % (text, mine, want), case)
 
 
+def _internal(res, e, case):
+    """A host exception escaped; an unbounded DEF FN recursion additionally gets one stable mechanism key."""
+    res.violation(e.key, str(e), case)
+    if 'RecursionError' in e.key:
+        res.violation('recursion:python-recursion-error-instead-of-out-of-memory', str(e)[:300], case)
+
+
 def _scope_from_dump(d):
     return {n: _to_model(v) for n, v in d.items() if not n.endswith('()')}
 
@@ -420,7 +428,12 @@ def run_direct(obs, case, lines, sample=False):
             exp = s20.expected(call, _scope_from_dump(before))
             c0, s0 = obs.collections, obs.soft
             ignore = ()
-            if call['form'] == 'eval':
+            if call['form'] == 'nested':
+                # the call is an operand of a larger expression (only used where an error is the expected outcome)
+                got = obs.evalx(fg.nested_text(call, fname[-1] == '$').encode('latin-1'))
+                if got[0] == 'ok':
+                    got = ('okprint', repr(got).encode())
+            elif call['form'] == 'eval':
                 got = obs.evalx(text)
             elif call['form'] == 'print':
                 out = box.ex(b'PRINT ' + text + b';')
@@ -437,7 +450,7 @@ def run_direct(obs, case, lines, sample=False):
             if got is None:
                 got = obs.evalx(('ZR' + fname[-1]).encode())
         except harness.Internal as e:
-            res.violation(e.key, str(e), {'program': lines, 'call': text})
+            _internal(res, e, {'program': lines, 'call': text})
             return
         s20.judge(call, got, before, after, exp, proj_exp, ignore, 'direct', during)
         if sample and ci < 2:
@@ -459,7 +472,10 @@ def run_inprog(obs, case, base_lines, trap):
         fname = fg.full_name(call['fn'], m.deftype)
         text = fg.call_text(call)
         form = call['form']
-        if form == 'print':
+        if form == 'nested':
+            stmt = 'PRINT %s;' % fg.nested_text(call, fname[-1] == '$')
+            target = None
+        elif form == 'print':
             stmt = 'PRINT %s;' % text
             target = None
         elif form == 'eval' and fname[-1] != '$':
@@ -500,7 +516,7 @@ def run_inprog(obs, case, base_lines, trap):
             during = {'collections': obs.collections - c0, 'soft': obs.soft - s0}
             after = obs.dump()
         except harness.Internal as e:
-            res.violation(e.key, str(e), {'program': lines, 'call': text})
+            _internal(res, e, {'program': lines, 'call': text})
             return
         code, line = harness.err_of(out)
         ignore = set(['ZE%'])
@@ -516,7 +532,7 @@ def run_inprog(obs, case, base_lines, trap):
                 try:
                     got = obs.evalx(target.encode())
                 except harness.Internal as e:
-                    res.violation(e.key, str(e), {'program': lines, 'call': text})
+                    _internal(res, e, {'program': lines, 'call': text})
                     return
             else:
                 got = ('okprint', out)
@@ -596,6 +612,41 @@ def directed_cases():
     # nesting in the ARGUMENT is not recursion
     calls.append({'fn': 'FNV#', 'args': [['FN', 'FNV#', [K(1), K(2)]], K(5)], 'form': 'eval'})
     cases.append({'deftypes': [], 'fns': fns, 'globals': [['X!', 5.0], ['Y!', 6.0], ['N%', 7], ['S$', 'glob']], 'arrays': [], 'calls': calls})
+    # recursion cycles of length 1..4 through every signature (no parameter, numeric, string, mixed)
+    FN = lambda n, a: ['FN', n, a]
+    fns = [
+        {'name': 'FNE', 'params': [], 'body': ['+', FN('FNE', []), K(1)], 'kind': 'rec-self'},
+        {'name': 'FNF$', 'params': [], 'body': ['CAT', FN('FNF$', []), KS('x')], 'kind': 'rec-self'},
+        {'name': 'FNG%', 'params': [], 'body': FN('FNG%', []), 'kind': 'rec-self'},
+        # 2-cycle, both parameterless
+        {'name': 'FNA', 'params': [], 'body': ['*', K(2), FN('FNB#', [])], 'kind': 'rec-mutual'},
+        {'name': 'FNB#', 'params': [], 'body': ['+', FN('FNA', []), K(1)], 'kind': 'rec-mutual'},
+        # 3-cycle: parameterless -> numeric -> string -> back
+        {'name': 'FNH', 'params': [], 'body': FN('FNI!', [K(2)]), 'kind': 'rec-mutual'},
+        {'name': 'FNI!', 'params': ['X'], 'body': ['LEN', FN('FNJ$', [KS('q'), ['V', 'X']])], 'kind': 'rec-mutual'},
+        {'name': 'FNJ$', 'params': ['S$', 'N%'], 'body': ['CAT', ['SPACE', FN('FNH', [])], ['V', 'S$']], 'kind': 'rec-mutual'},
+        # 4-cycle: parameterless only in the middle
+        {'name': 'FNK#', 'params': ['X'], 'body': ['+', FN('FNL#', []), ['V', 'X']], 'kind': 'rec-mutual'},
+        {'name': 'FNL#', 'params': [], 'body': FN('FNM#', [KS('s')]), 'kind': 'rec-mutual'},
+        {'name': 'FNM#', 'params': ['S$'], 'body': ['+', ['LEN', ['V', 'S$']], FN('FNO#', [])], 'kind': 'rec-mutual'},
+        {'name': 'FNO#', 'params': [], 'body': FN('FNK#', [K(1)]), 'kind': 'rec-mutual'},
+        {'name': 'FNV#', 'params': ['X', 'Y'], 'body': ['+', ['*', ['V', 'X'], K(2)], ['V', 'Y']], 'kind': 'value'},
+        {'name': 'FNW#', 'params': [], 'body': ['+', ['V', 'X'], K(1)], 'kind': 'value'},
+    ]
+    calls = []
+    entry = [('FNE', []), ('FNF$', []), ('FNG%', []), ('FNA', []), ('FNB#', []), ('FNH', []), ('FNI!', [K(3)]),
+             ('FNJ$', [KS('s'), K(1)]), ('FNK#', [K(3)]), ('FNL#', []), ('FNM#', [KS('s')]), ('FNO#', [])]
+    for nm, args in entry:
+        for form in ('eval', 'print', 'let', 'nested'):
+            calls.append({'fn': nm, 'args': args, 'form': form})
+        # normal calls (with and without parameters) must still work after the recursion error
+        calls.append({'fn': 'FNV#', 'args': [K(3), K(4)], 'form': 'eval'})
+        calls.append({'fn': 'FNW#', 'args': [], 'form': 'eval'})
+    # a recursive function as ARGUMENT of a sound one
+    calls.append({'fn': 'FNV#', 'args': [FN('FNE', []), K(1)], 'form': 'eval'})
+    calls.append({'fn': 'FNV#', 'args': [K(1), FN('FNK#', [K(2)])], 'form': 'print'})
+    cases.append({'deftypes': [], 'fns': fns, 'globals': [['X!', 5.0], ['Y!', 6.0], ['N%', 7], ['S$', 'glob']],
+                  'arrays': [['X!', [1.5, 2.5]]], 'calls': calls})
     # failing arguments / bodies
     fns = [
         {'name': 'FNI%', 'params': ['X%', 'S$'], 'body': ['+', ['V', 'X%'], ['LEN', ['V', 'S$']]], 'kind': 'value'},
